@@ -41,7 +41,10 @@ def main():
             caught, lines = [], {}
             for p in props:
                 t0 = time.time()
-                c = sh("./check %s --tier quick" % p, cwd=ROOT)
+                # by default without the changed-source boost (cflib.source_changes): what is recorded is what the plain quick
+                # volumes catch; --boost measures the check as it really runs on a changed tree
+                env = dict(os.environ) if "--boost" in sys.argv else dict(os.environ, VERIF_NO_BOOST="1")
+                c = sh("./check %s --tier quick" % p, cwd=ROOT, env=env)
                 v = [l for l in c.stdout.split("\n") if l.startswith("VIOLATION")]
                 if c.returncode != 0 or v:
                     caught.append(p)
